@@ -292,6 +292,28 @@ class RecLogger(Logger):
         super().process(logs)
 
 
+class SizedRecLogger(RecLogger):
+    """a collecting logger the way a user might write it: len(logger) is the number of records kept so far (so the
+    object is falsy until its first record arrives)"""
+
+    def __init__(self):
+        super().__init__()
+        self.kept = []
+
+    def write(self, log):
+        self.kept.append(log)
+        super().write(log)
+
+    def write_and_direct_process(self, log):
+        self.kept.append(log)
+        super().write_and_direct_process(log)
+
+    def __len__(self):
+        return len(self.kept)
+
+
+LOGGERS = {"rec": RecLogger, "sized": SizedRecLogger, "none": lambda: None}
+
 HOOK_KINDS = [("order", True), ("order", False), ("cancel", True), ("cancel", False), ("execution", False),
               ("session", True), ("session", False), ("market", True), ("market", False)]
 
@@ -449,7 +471,7 @@ def run_once(scn, prefix):
     w = RWorld(scn, prefix)
     W = w
     cfg = copy.deepcopy(scn.cfg)
-    r = SequentialRunner(cfg, ChoiceRandom(), RecLogger())
+    r = SequentialRunner(cfg, ChoiceRandom(), LOGGERS[scn.meta.get("logger", "rec")]())
     for c in PROBE_CLASSES + list(scn.meta.get("classes", [])):
         r.class_register(c)
     w.runner = r
@@ -468,6 +490,9 @@ def run_once(scn, prefix):
         scn.post_setup(w)
     sim = r.simulator
     w.endow = {a.agent_id: (a.cash_amount, dict(a.asset_volumes)) for a in sim.agents}
+    for a in sim.agents:
+        if not isinstance(a, ScriptedMixin):
+            _probe_builtin_agent(a)
     w.phase = "run"
     try:
         r._run()
@@ -484,6 +509,38 @@ def run_once(scn, prefix):
             raise common.HarnessError("exception inside harness code:\n" + w.exc_tb)
     w.phase = "done"
     return w
+
+
+def _probe_builtin_agent(a):
+    """a built-in (or user) agent that is not scripted: its consultations and notifications are recorded like those of
+    the scripted agents, its decisions are its own (its private PRNG is seeded from the explorer's counter)"""
+    orig_submit, o_sub, o_exe, o_can = a.submit_orders, a.submitted_order, a.executed_order, a.canceled_order
+
+    def submit_orders(markets):
+        W.observe(("consult", a.agent_id))
+        out = orig_submit(markets)
+        for o in out:
+            if isinstance(o, Order) and o.placed_at is None:
+                o._vf_returned = order_desc(o)
+        W.rec("consult", a.agent_id, [order_desc(o) for o in out], markets[0].get_time(), list(out))
+        return out
+
+    def submitted_order(log):
+        W.rec("cb_sub", a.agent_id, log)
+        W.observe(("cb_sub", a.agent_id))
+        return o_sub(log)
+
+    def executed_order(log):
+        W.rec("cb_exe", a.agent_id, log, a.cash_amount, dict(a.asset_volumes))
+        W.observe(("cb_exe", a.agent_id))
+        return o_exe(log)
+
+    def canceled_order(log):
+        W.rec("cb_can", a.agent_id, log)
+        W.observe(("cb_can", a.agent_id))
+        return o_can(log)
+
+    a.submit_orders, a.submitted_order, a.executed_order, a.canceled_order = submit_orders, submitted_order, executed_order, canceled_order
 
 
 def summary_digest(w):
